@@ -236,6 +236,44 @@ def run_cases(ctx, cases, monitor):
                     "model": {k: model.get(k) for k in ("status", "shape", "names", "terms", "kind")}})
 
 
+def gen_powarr(rng, idx):
+    """`**` with an array of exponents (ndarray / list / constant polynomial), broadcasting both ways"""
+    sa, sk = gen.gen_shape_pair(rng)
+    if not sa and not sk:
+        sk = (2,)
+    a = gen.gen_struct(rng, shape=sa, kind="int", nterms=int(rng.integers(0, 4)), maxexp=2, lim=2)
+    a["as"] = "poly"
+    n = int(numpy.prod(sk, dtype=int))
+    ks = [int(x) for x in rng.integers(0, 4, size=n)]
+    return {"id": idx, "prop": "C01", "op": "powarr", "opts": DEFAULT_OPTS, "a": a, "kshape": list(sk), "ks": ks,
+            "kas": gen.choice(rng, ["ndarray", "list", "poly"])}
+
+
+def run_powarr(ctx, cases, monitor):
+    drv = [{"id": c["id"], "op": "powarr", "opts": c["opts"], "a": {k: c["a"][k] for k in ("names", "shape", "terms")},
+            "kshape": c["kshape"], "ks": c["ks"]} for c in cases]
+    for c, model in zip(cases, run_driver(drv)):
+        a = gen.materialize(c["a"])
+        k = numpy.array(c["ks"], dtype=int).reshape(tuple(c["kshape"]))
+        kobj = k if c["kas"] == "ndarray" else k.tolist() if c["kas"] == "list" else numpoly.polynomial(k)
+        ctx.evaluations += 1
+        ctx.count("op=powarr")
+        try:
+            with time_limit(30), monitor.watch("C01:powarr", a):
+                res = a ** kobj
+            impl = any_to_struct(res)
+            impl["status"] = "ok"
+            impl["wf"] = wf_problems(res) if isinstance(res, numpoly.ndpoly) else []
+        except (Exception, CaseTimeout) as err:  # noqa: BLE001
+            impl = {"status": "err", "kind": err_kind(err), "msg": f"{type(err).__name__}: {err}"[:200]}
+        case = dict(c, tree=["powarr"])
+        r = compare(dict(case, tree=["pow", ["leaf", 0], 0]), model, impl)
+        if r:
+            ctx.fail(c, "array exponent: " + r[0], ["op:powarr"] + [t for t in r[1] if not t.startswith("op:")])
+        if model.get("status") == "ok" and len(den_of_struct(model)) >= 2:
+            ctx.nontrivial_add(json.dumps(["powarr", c["a"]["terms"], c["ks"], c["kshape"]]))
+
+
 def corpus_cases():
     """witnesses kept from earlier findings (run first)"""
     one = lambda names, shape, terms, kind="int", as_="poly": {
@@ -273,12 +311,20 @@ def run(ctx):
         if ctx.out_of_time():
             ctx.notes.append(f"stopped after {i + chunk} cases: time budget")
             break
+    prng = ctx.rng("powarr")
+    run_powarr(ctx, [gen_powarr(prng, i) for i in range(150 if ctx.quick else 2500)] + [
+        {"id": "corpus-D1", "prop": "C01", "op": "powarr", "opts": DEFAULT_OPTS, "kas": "ndarray", "kshape": [2, 1, 2], "ks": [1, 2, 0, 3],
+         "a": {"names": [0], "shape": [2, 1, 2], "dtype": "int64", "kind": "int", "as": "poly", "terms": [[[1], [1, 2, 3, 4]], [[0], [1, 0, 1, 0]]]}}], monitor)
     ctx.extra["argument_monitor"] = {"calls": monitor.calls, "mutations": monitor.events[:5]}
     for ev in monitor.events[:3]:
         ctx.notes.append(f"argument mutated (C17 monitor): {ev}")
 
 
 def replay(ctx, case):
+    if case.get("op") == "powarr":
+        n = len(ctx.failures)
+        run_powarr(ctx, [case], Monitor())
+        return ctx.failures[n]["what"] if len(ctx.failures) > n else None
     model = run_driver([driver_case(case)])[0]
     impl = run_impl(case)
     res = compare(case, model, impl)
